@@ -188,6 +188,9 @@ def random_noise(rng, kind, m):
     return float(10 ** rng.uniform(-2.5, 0)), False
 
 
+TENSOR_INPUTS = [0]
+
+
 def add_random(rng, model, shadow, kind, d, m, pool, n=None):
     n = int(rng.integers(1, 5)) if n is None else n
     if rng.random() < 0.4 and len(pool):
@@ -201,6 +204,11 @@ def add_random(rng, model, shadow, kind, d, m, pool, n=None):
             k = int(rng.integers(m))
             y = rng.normal(size=n)
             hx, hy = Xin.copy(), y.copy()
+            if rng.random() < 0.35:  # the caller works with torch tensors (accepted by to_tensor) and re-uses them
+                import torch
+
+                hx, hy = torch.tensor(hx, dtype=torch.float64), torch.tensor(hy, dtype=torch.float64)
+                TENSOR_INPUTS[0] += 1
             model.add_sample(hx, hy, k)
             hx[...] = np.nan  # the caller re-uses its buffers
             hy[...] = np.nan
@@ -213,6 +221,11 @@ def add_random(rng, model, shadow, kind, d, m, pool, n=None):
         return ("add", n, ks)
     Y = rng.normal(size=(n, m))
     hx, hy = Xin.copy(), Y.copy()
+    if rng.random() < 0.35:  # seeded/W08: the first tensor batch of an empty model was kept by reference
+        import torch
+
+        hx, hy = torch.tensor(hx, dtype=torch.float64), torch.tensor(hy, dtype=torch.float64)
+        TENSOR_INPUTS[0] += 1
     model.add_sample(hx, hy)
     hx[...] = np.nan  # the caller re-uses its buffers
     hy[...] = np.nan
@@ -502,3 +515,5 @@ def shard(mon, tier, rng, shard_no, nshards):
     if tier == "thorough":
         for kind in KINDS:
             factory(mon, rng, kind, real_train=(kind == "correlated" or shard_no < 4))
+    mon.count("tensor_inputs_poisoned", TENSOR_INPUTS[0])
+    TENSOR_INPUTS[0] = 0
